@@ -79,6 +79,11 @@ def run_query_case(case):
         out["build_exc"] = exc_name(e) + ": " + str(e)[:200]
         out["build_tb"] = traceback.format_exc()[-1500:]
         return out
+    def snapshot():
+        return ([(id(o), tuple(sorted((k, id(v)) for k, v in vars(o).items()))) for o in heap[:len(case["W"]["objs"])]],
+                [[id(x) for x in d] for b in builders for d in b.domlists])
+
+    snap0 = snapshot()
     for ev in case["evs"]:
         rec = dict(ev)
         op = ev["op"]
@@ -99,7 +104,7 @@ def run_query_case(case):
                 rec["rows"] = []
                 it = iter(b.query.evaluate())
                 try:
-                    for _ in range(ev.get("k", 10 ** 6)):
+                    for _ in range(ev["k"] if op == "partial" else 10 ** 6):
                         try:
                             rec["rows"].append(b.row(next(it), index_of))
                         except StopIteration:
@@ -133,6 +138,7 @@ def run_query_case(case):
             rec["exc"] = exc_name(e)
             rec["exc_msg"] = str(e)[:200]
         rec["hits"] = HITS["n"]
+        rec["mutated"] = snapshot() != snap0
         rec["calls"] = world.PredicatePlan.calls
         rec["leak"] = "mode" if in_symbolic_mode() else "none"
         if in_symbolic_mode():
